@@ -18,7 +18,7 @@ func init() { Register(c14{}) }
 
 func (c14) Name() string { return "c14" }
 func (c14) Rule() string {
-	return "full-server simulation over the wire: 8..45 client operations (didOpen/didChange/didSave/didClose/re-open, completion, hover, definition, references, rename, prepareRename, documentSymbol, workspace/symbol, formatting, foldingRange, documentLink, semanticTokens full/range/delta, inlineCompletion, didChangeConfiguration with the client answering workspace/configuration immediately, late or never, unknown notifications, requests on closed documents) on 1..4 journal-profile documents carrying version markers, with and without workspace root, hledger found or not (exec-ok), optional transport close; every go statement of the server is a task the simulator schedules under 7 policies with preemption at every lock, sync.Map, disk, clock, exec and client call. Invariants: no panic in any task, no deadlock, no livelock within 20000 steps, and in the -race build (same seeds, happens-before-invisible scheduling) no data-race report. Oracle: no marker of a superseded version of the requesting document in any response; sampled responses must equal, after canonical JSON, the response of a FRESH sequential reference server brought to the same client-visible state (same disk clone, same settings, didOpen of every open document in open order); while background work of the requesting document is still pending the answer may instead equal the cold reference (no analysis has run) or the lagging reference (analysis of the last published version has run, the latest change not yet). Non-trivial: >= 2 server tasks alive at once or a request answered while a task was pending. Distinct: schedule signature + operation kinds."
+	return "full-server simulation over the wire: 8..45 client operations (didOpen/didChange/didSave/didClose/re-open, completion, hover, definition, references, rename, prepareRename, documentSymbol, workspace/symbol, formatting, foldingRange, documentLink, semanticTokens full/range/delta, inlineCompletion, Server.CodeAction through a debug method, didChangeConfiguration with the client answering workspace/configuration immediately, late or never, unknown notifications, requests on closed documents) on 1..4 journal-profile documents carrying version markers, with and without workspace root, hledger found or not (exec-ok), optional transport close; every go statement of the server is a task the simulator schedules under 7 policies with preemption at every lock, sync.Map, disk, clock, exec and client call. Invariants: no panic in any task, no deadlock, no livelock within 20000 steps, and in the -race build (same seeds, happens-before-invisible scheduling) no data-race report. Oracle: no marker of a superseded version of the requesting document in any response; sampled responses must equal, after canonical JSON, the response of a FRESH sequential reference server brought to the same client-visible state (same disk clone, same settings, didOpen of every open document in open order); while background work of the requesting document is still pending the answer may instead equal the cold reference (no analysis has run) or the lagging reference (analysis of the last published version has run, the latest change not yet). Non-trivial: >= 2 server tasks alive at once or a request answered while a task was pending. Distinct: schedule signature + operation kinds."
 }
 func (c14) Enumerated(string) int           { return 0 }
 func (c14) Components() ([]string, []string) { return serverComponents() }
@@ -159,7 +159,15 @@ func (c14) Run(ctx *RunCtx) {
 				// cannot masquerade as corruption by background work (DESIGN 5.11/11).
 				continue
 			}
-			d.Notify("textDocument/didSave", w.Save(doc))
+			sp := w.Save(doc)
+			if doc.Marker > 0 && c.Pct("ext-write-before-didSave", 25) {
+				// another program rewrites the file between the editor's write and
+				// its didSave: the open buffer still is what every answer is about
+				w.ExtWrite(doc, c.Choose("ext-version", doc.Marker))
+				ctx.Stats.Inc("fault:ext-write")
+				ctx.T("op%d another program rewrites d%d's file with its v%d", op, doc.No, doc.DiskMark)
+			}
+			d.Notify("textDocument/didSave", sp)
 			ctx.T("op%d didSave d%d (disk now v%d)", op, doc.No, doc.DiskMark)
 			kinds = append(kinds, "save")
 		case 2:
@@ -189,7 +197,7 @@ func (c14) Run(ctx *RunCtx) {
 			td := J{"textDocument": docID(doc.URI), "position": pos(l, ch)}
 			var method string
 			var params J
-			switch c.Choose("feature", 15) {
+			switch c.Choose("feature", 16) {
 			case 0, 1:
 				method, params = "textDocument/completion", td
 			case 2:
@@ -219,6 +227,10 @@ func (c14) Run(ctx *RunCtx) {
 			case 14:
 				// ghost text on the empty line after the header being typed
 				method, params = "textDocument/inlineCompletion", J{"textDocument": docID(doc.URI), "position": pos(doc.GhostLine(), 0)}
+			case 15:
+				// Server.CodeAction reads the settings and the CLI client that
+				// configuration refreshes replace
+				method, params = "verif/codeAction", J{"textDocument": docID(doc.URI), "range": rng(l, 0, l, 0), "context": J{"diagnostics": []any{}}}
 			}
 			pendingBefore := d.LiveBg()
 			if d.Sess.InboundPending() || len(d.S.RunnableTasks()) > 0 {
